@@ -111,7 +111,11 @@ func metadataMergeInterceptor(old, new proto.Message) {
 	// so we have to do it ourselves.
 	oldVal := old.(*traits.Metadata)
 	newVal := new.(*traits.Metadata)
-	newVal.Traits = oldVal.Traits
+	// merge into copies: the old message is live (stored, and shared with earlier readers)
+	newVal.Traits = make([]*traits.TraitMetadata, len(oldVal.Traits))
+	for i, trait := range oldVal.Traits {
+		newVal.Traits[i] = proto.Clone(trait).(*traits.TraitMetadata)
+	}
 	for _, trait := range cleanTraits {
 		newVal.Traits = mergeTraitMetadata(newVal.Traits, trait)
 	}
